@@ -45,6 +45,13 @@ def check(ctx):
     from . import c15x as _c15x
 
     _c15x.wide_fifo_layouts(ctx)
+    from . import c15y as _c15y
+
+    _c15y.pointer_layout(ctx, comp)
+    _ny = 0
+    for ex in comp.configs:
+        _ny += _c15y.elaborate_ranges(ctx, comp, ex, cfg_name(ex))
+    ctx.floor("C15", "WideFifo range / column obligations", _ny, 6, comp.site)
     for ex in comp.configs:
         cn = cfg_name(ex)
         w, r, p, c = (need_body(ex, n, "C15", comp.site) for n in ("write", "read", "peek", "clear"))
